@@ -215,10 +215,45 @@ def run_into(V, tier, seed):
                 for nm, tx in c19.render_files(rng, sc2):
                     out_files.append(["many_" + nm.replace("/", "_"), tx])
                 kinds.append("many_fills")
+            # the matcher tries every combination of the sales inside a benefit's window (2^n): keep n where that ends
+            # in seconds here; the blow-up itself is probed once, separately, below
+            n_sales = sum(len(re.findall(r"Transaction Type: Sold| SELL \d", f[1])) for f in out_files)
+            if n_sales > 22:
+                out_files = [f for f in out_files if not f[0].startswith("many_")]
+                kinds = [k for k in kinds if k != "many_fills"] + ["many_fills_dropped"]
+                n_sales = sum(len(re.findall(r"Transaction Type: Sold| SELL \d", f[1])) for f in out_files)
+                if n_sales > 22:
+                    continue
             cid = "pe%06d" % i
             cases.append({"id": cid, "dir": os.path.join(wd, cid), "files": out_files, "extract_only": rng.random() < 0.1, "pretty": rng.random() < 0.1})
             meta[cid] = ",".join(sorted(set(kinds))) or "unmutated"
         res = common.run_harness("etrade", cases, tag="c05pe", per_case_timeout=60)
+        # probe: one RSU with its 2-fill sell-to-cover and 34 more small sales in the same window
+        rngp = common.rng_for(seed, "C05", "etrade-probe")
+        for _ in range(50):
+            scp = c19.gen_scenario(rngp)
+            if scp["era"] == "post" and any(b["kind"] == "RSU" and b["sold"] for b in scp["benefits"]):
+                break
+        b0 = next((b for b in scp["benefits"] if b["kind"] == "RSU" and b["sold"]), None)
+        if b0 is not None:
+            extra = [{"sym": b0["sym"], "td": b0["date"], "sd": b0["date"], "qty": 1 + (k % 7), "price": b0["fmv"], "comm": None,
+                      "fee": c19.Fraction(1, 100), "for": None} for k in range(34)]
+            pf = c19.render_files(rngp, scp) + [("many_" + nm.replace("/", "_"), tx) for nm, tx in c19.render_files(rngp, dict(scp, trades=extra, benefits=[]))]
+            pc = {"id": "probe", "dir": os.path.join(wd, "probe"), "files": [[a, b] for a, b in pf]}
+            import subprocess
+            outp = os.path.join(wd, "probe.out")
+            try:
+                subprocess.run([common.HARNESS_BIN, "etrade", outp], input=(json.dumps(pc) + "\n").encode(), stdout=subprocess.DEVNULL,
+                               stderr=subprocess.DEVNULL, timeout=20)
+                pr = {}
+            except subprocess.TimeoutExpired:
+                pr = {"hang": {"budget_s": 20}}
+            V.count()
+            V.bump("etrade_combination_probe")
+            if "hang" in pr or "crash" in pr:
+                V.violation("etrade-plan-pdf-tx-extract does not finish within 20 s on %d sales inside one benefit's window" % (len(extra) + 2),
+                            {"kind": "etrade", "case": dict(pc, dir=None), "mutation": "probe"},
+                            {"what": "HANG", "front": "etrade-plan-pdf-tx-extract", "feat": "probe", "sales_in_one_window_over_30": True})
         for c in cases:
             V.count()
             r = res.get(c["id"], {})
